@@ -338,18 +338,31 @@ def run(case):
         set_state(field, mesh2, 0.1, seed)
         nd = mesh.dim
         cp = len(mesh2.points) - 1
-        for skip in itertools.product((0, 1), repeat=nd):
+        interior = np.setdiff1d(np.arange(len(mesh.points)), pts)
+        # the centre point: the extra point (positive / negative index), one of the tied points themselves (a face tied to its
+        # own middle node), a mesh node outside the tied set
+        centres = {"extra": cp, "extra-negative-index": -1, "member-of-points": int(pts[len(pts) // 2]), "first-of-points": int(pts[0]), "other-mesh-node": int(interior[len(interior) // 2])}
+        for (clab, cpt), skip in itertools.product(centres.items(), itertools.product((0, 1), repeat=nd)):
             if all(skip):
                 continue
-            mpc = fem.MultiPointConstraint(field, points=pts, centerpoint=cp, skip=skip, multiplier=10.0)
+            mpc = fem.MultiPointConstraint(field, points=pts, centerpoint=cpt, skip=skip, multiplier=10.0)
             f = mpc.assemble.vector(field).toarray()[:, 0].reshape(-1, nd)
             c.trans += 1
-            c.close(f"mpc/skip={skip}/sum", "multi-point constraint forces are self-equilibrated", f.sum(0), np.zeros(nd), np.abs(f).max() * len(pts))
+            lab = f"mpc/centre={clab}/skip={skip}" if clab != "extra" else f"mpc/skip={skip}"
+            c.close(f"{lab}/sum", "multi-point constraint forces are self-equilibrated", f.sum(0), np.zeros(nd), np.abs(f).max() * len(pts))
             if any(skip) and np.abs(f[:, np.array(skip, bool)]).max() > 0:
-                c.bad(f"mpc/skip={skip}/skipped-axes", "forces on skipped axes", float(np.abs(f[:, np.array(skip, bool)]).max()), 0)
-            others = np.setdiff1d(np.arange(len(f)), np.append(pts, cp))
+                c.bad(f"{lab}/skipped-axes", "forces on skipped axes", float(np.abs(f[:, np.array(skip, bool)]).max()), 0)
+            cpos = cpt % len(f)
+            others = np.setdiff1d(np.arange(len(f)), np.append(pts, cpos))
             if len(others) and np.abs(f[others]).max() > 0:
-                c.bad(f"mpc/skip={skip}/support", "constraint forces only on the coupled points", float(np.abs(f[others]).max()), 0)
+                c.bad(f"{lab}/support", "constraint forces only on the coupled points", float(np.abs(f[others]).max()), 0)
+            # each tied point carries k (u_p - u_c) on the active axes (up to the common sign convention), the centre minus their sum
+            uu = field.fields[0].values
+            tied = np.setdiff1d(pts, [cpos])
+            want = 10.0 * (uu[tied] - uu[cpos]) * (1 - np.array(skip))[None, :]
+            sgn = 1.0 if np.abs(f[tied] - want).max() <= np.abs(f[tied] + want).max() else -1.0
+            c.close(f"{lab}/tied-forces", "force on each tied point = multiplier x (u_point - u_centre) on the active axes", f[tied], sgn * want, max(np.abs(want).max(), 1e-12))
+            c.close(f"{lab}/centre-force", "force on the centre point = minus the sum of the forces on the tied points", f[cpos], -f[tied].sum(0), max(np.abs(want).max() * len(tied), 1e-12))
         u = field.fields[0].values.copy()
         for k, p in enumerate(pts):
             gap = mesh2.points[cp, 0] - mesh2.points[p, 0]
